@@ -150,7 +150,7 @@ def structure_to_schema(structure, definitions_schema, serialization_mapper=None
     if not issubclass(structure, Structure):
         raise TypeError("Expected a Structure subclass")
     field_by_name = structure.get_all_fields_by_name()
-    required = getattr(structure, "_required", list(field_by_name.keys()))
+    required = list(getattr(structure, "_required", field_by_name.keys()))
 
     additional_props = getattr(
         structure, ADDITIONAL_PROPERTIES, TypedPyDefaults.additional_properties_default
